@@ -53,7 +53,7 @@ def flag_vectors():
 LONG = {"n": "nasm", "t": "strict", "s": "smart", "p": "print", "P": "printfile", "c": "chunk", "b": "breaks", "r": "return", "o": "object"}
 
 
-def argv_of(f, paths):
+def argv_of(f, paths, rlast=False):
     a = []
     spell = f.get("spell", "short")
 
@@ -81,7 +81,7 @@ def argv_of(f, paths):
         a += flag("c", str(f["c"]))
     if f["b"]:
         a += flag("b", str(f["b"]))
-    if f["r"]:
+    if f["r"] and not rlast:
         a += flag("r")
     if f["out"] == "P":
         a += flag("P", paths["P"])
@@ -89,7 +89,19 @@ def argv_of(f, paths):
         a += flag("o", paths[f["out"]])
     elif f["out"] == "Pbad":
         a += flag("P", paths["bad"])
+    if f["r"] and rlast:
+        a += flag("r")          # the last option: FILE (or nothing) follows it directly
     return a
+
+
+# how FILE is named and where -r stands are no dimensions of the flag model (spec/AsmCli.tla judges what the flags mean): the driver
+# rotates through them so that every flag vector meets some of them, and records them in the replay file
+NAMINGS = ("abs", "rel", "digit", "dotrel")
+
+
+def file_arg(naming, progfiles, prog):
+    base = os.path.basename(progfiles[prog])
+    return {"abs": progfiles[prog], "rel": base, "digit": "64" + base, "dotrel": "./" + base}[naming]
 
 
 ROW = re.compile(r"^((?:[0-9a-f]{2} )+)\|?$")
@@ -134,6 +146,7 @@ def run(prop, tier, replay=None):
         for name, (text, _) in PROGRAMS.items():
             p = os.path.join(d, name + ".asm")
             open(p, "w", newline="").write(text)
+            open(os.path.join(d, "64" + name + ".asm"), "w", newline="").write(text)      # the same program under a name that starts with digits
             progfiles[name] = p
         # cases
         if replay:
@@ -197,14 +210,17 @@ def run(prop, tier, replay=None):
             idx, (f, opt, prog) = idx_case
             paths = {"P": os.path.join(d, "out%d.bin" % idx), "o": "obj%d" % idx, "olong": "obj%d" % idx + "x" * 150, "bad": os.path.join(d, "no-such-dir", "x.bin")}
             # -o gets a name relative to cwd = d: asmline refuses -o names that contain a '.', which a directory name may
-            argv = [exe] + argv_of(f, paths)
+            naming, rlast = NAMINGS[idx % 4], (idx // 4) % 2 == 1
+            if replay:
+                naming, rlast = rp.get("naming", "abs"), rp.get("rlast", False)
+            argv = [exe] + argv_of(f, paths, rlast)
             text = PROGRAMS[prog][0]
             pre_target = paths["P"] if f["out"] == "P" else (os.path.join(d, paths[f["out"]] + ".bin") if f["out"] in ("o", "olong") else None)
             if pre_target and f.get("pre", "none") != "none":
                 open(pre_target, "wb").write(b"\xee" * (4096 if f["pre"] == "long" else 1))
             try:
                 if f["src"] == "file":
-                    r = subprocess.run(argv + [progfiles[prog]], stdin=subprocess.DEVNULL, capture_output=True, timeout=20, cwd=d)
+                    r = subprocess.run(argv + [file_arg(naming, progfiles, prog)], stdin=subprocess.DEVNULL, capture_output=True, timeout=20, cwd=d)
                 else:
                     r = subprocess.run(argv, input=text.encode("latin-1"), capture_output=True, timeout=20, cwd=d)
                 exitc, out = r.returncode, r.stdout.decode("latin-1")
@@ -218,7 +234,7 @@ def run(prop, tier, replay=None):
                 os.unlink(target)
             k = (opt["mov"], opt["swap"], opt["nobase"], f["c"], f["b"], prog)
             return {"id": "cli%d" % idx, "f": f, "prog": prog, "exit": exitc, "rows": rows, "count": count, "value": value, "file": fb,
-                    "junk": junk[:3], "lib": libres[refs[k].sid], "opt": opt, "argv": argv[1:]}
+                    "junk": junk[:3], "lib": libres[refs[k].sid], "opt": opt, "argv": argv[1:], "naming": naming, "rlast": rlast}
         with cf.ThreadPoolExecutor(max_workers=A.NCPU) as ex:
             events = list(ex.map(one, enumerate(cases)))
     finally:
@@ -277,7 +293,7 @@ def run(prop, tier, replay=None):
         seen[reason] += 1
         if seen[reason] > 3:
             continue
-        path = A.write_replay(prop, "%s-%s" % (e["id"], reason), {"property": prop, "reason": reason, "f": e["f"], "opt": e["opt"], "prog": e["prog"], "text": PROGRAMS[e["prog"]][0], "observed": e})
+        path = A.write_replay(prop, "%s-%s" % (e["id"], reason), {"property": prop, "reason": reason, "f": e["f"], "opt": e["opt"], "prog": e["prog"], "text": PROGRAMS[e["prog"]][0], "naming": e["naming"], "rlast": e["rlast"], "observed": e})
         print("VIOLATION property=%s replay=%s  (%s: asmline %s  program %s from %s)" % (prop, path, reason, " ".join(e["argv"]), e["prog"], e["f"]["src"]))
     for r, n in seen.items():
         if n > 3:
